@@ -119,7 +119,7 @@ def build_driver():
         open(stamp, "w").write(h)
 
 
-def build_harness(tags="verif", out="harness"):
+def build_harness(tags="verif", out="harness", extra=""):
     """Rebuild the Go harness from /repo's CURRENT working tree (module replace -> /repo)."""
     with Lock("go-" + out):
         gosum = os.path.join(REPO, "go.sum")
@@ -127,7 +127,7 @@ def build_harness(tags="verif", out="harness"):
             dst = os.path.join(HARNESS, "go.sum")
             if not os.path.exists(dst) or open(dst).read() != open(gosum).read():
                 open(dst, "w").write(open(gosum).read())
-        rc, o = sh("timeout 1200 go build -tags '%s' -o %s ." % (tags, os.path.join(BUILD, out)),
+        rc, o = sh("timeout 1200 go build %s -tags '%s' -o %s ." % (extra, tags, os.path.join(BUILD, out)),
                    cwd=HARNESS, env=GOENV, check=False)
         if rc != 0:
             sys.stdout.write(o[-4000:])
